@@ -98,6 +98,12 @@ CHECKS["C13"] = world("C13", "TestC13", HIST + "profile hostile: a quarter of th
 CHECKS["C13"]["fuzz"] = [{"target": "FuzzC13", "seconds": 150}]
 CHECKS["C13"]["replay_test"] = "TestWorldReplay|TestC13FuzzReplay"
 CHECKS["C13"]["crash_is_violation"] = True
+CHECKS["C19"] = world("C19", "TestC19", HIST + "profile sorting (3-5 children per parent, priority offsets and policies, fair and fifo leaves, priority sorting on/off, asks with priorities incl. far apart "
+    "priority classes and three creation times, usage set through RM reported allocations and scheduling, node capacity changes, reloads that change the node sorting policy); after every step: "
+    "sorted children of every parent (three calls, map order differs) and the raw sorter on reversed/rotated candidates have no pair ordered against the documented comparator recomputed from "
+    "exported getters; same for the applications of every leaf; the pre-sorted asks of every application; both node iterators visit exactly the right nodes once in score order of the current "
+    "utilisation; non-trivial = at least 3 queue or application candidates with distinct keys and at least 3 nodes with distinct scores",
+    quick=(14, 150))
 CHECKS["C09"] = world("C09", "TestC09", HIST + "profile reserve (reservation delay 0, small nodes, 30% required-node asks); non-trivial = a reservation was made and one was removed by "
     "something other than a scheduling cycle (ask/app/node removal, RM reported binding)")
 CHECKS["C10"] = world("C10", "TestC10", HIST + "profile churn-apps; non-trivial = an application that visited at least 4 states")
@@ -148,6 +154,8 @@ META = {
         "level_note": WORLD_NOTE + "; 'invalid' is known only for the structured mutation classes; the harness repeats the partition-name normalisation of RMProxy.Update*",
         "technique": "stateful property-based testing (rapid) with hostile request mutation + native go fuzzing of protobuf bytes, oracle: no panic/hang, rejection, state unchanged, accounting invariants",
     },
+    "C19": _world_meta("comparator validity on every output pair of the queue / application sorters (keys recomputed from exported getters, permutations of the same candidates), "
+                       "order and completeness of the pre-sorted asks, and node iterators against scores recomputed from the current utilisation"),
     "C09": _world_meta("equality of the application, node and queue views of the reservation relation and exclusivity rules after every step"),
     "C10": _world_meta("the documented application life-cycle table applied to shim messages and state log, plus state/ledger agreement"),
     "C11": _world_meta("the max-applications gate evaluated on the pre-step queue view and counter sanity after every step"),
